@@ -186,8 +186,7 @@ vh::Outcome run_locks(const vh::Case& c, Prop prop) {
                             } else {
                                 if (bool(h) != owns_excl())
                                     vrt::fail("handle-truth", std::string(opname[kind]) + ": handle is " + (h ? "non-null" : "null") + " but the caller " + (owns_excl() ? "owns" : "does not own") + " the mutex");
-                                if (!h && !held_at_call && acq0 == core->excl_acqs + core->shared_acqs)
-                                    vrt::fail("spurious-null", std::string(opname[kind]) + " returned null although nobody held the lock during the call");
+                                (void)held_at_call; (void)acq0;   // a try that fails although the lock looked free is not asserted (the property only ties null to "not obtained")
                                 if (!h) st.lbl_try_null = true;
                                 if (h && is_try && held_at_call) st.lbl_release_during_timed = true;
                                 if (!h && lifecycles && op.a >= 5) {
@@ -295,8 +294,6 @@ vh::Outcome run_locks(const vh::Case& c, Prop prop) {
                                     vrt::fail("handle-truth", std::string(opname[kind]) + ": shared handle is " + (h ? "non-null" : "null") + " but the caller " + (owns_shared() ? "holds" : "does not hold") + " the lock");
                                 if (share_capable && !h && !excl_at_call && eacq0 == core->excl_acqs)
                                     vrt::fail("reader-blocked-by-reader", std::string(opname[kind]) + " failed although only readers held the lock during the call");
-                                if (!share_capable && !h && !(excl_at_call) && eacq0 == core->excl_acqs)
-                                    vrt::fail("spurious-null", std::string(opname[kind]) + " returned null although nobody held the lock during the call");
                                 if (!h) st.lbl_try_null = true;
                                 if (!h && lifecycles && op.a >= 5) { h.unlock(); if (h) vrt::fail("unlock-not-null", "null shared handle became non-null after unlock()"); }
                                 if (h && share_capable && core->nshared >= 2) st.lbl_two_readers = true;
